@@ -125,6 +125,50 @@ pub fn line_roots(sink: &Sink) -> Vec<(RootDesc, Board)> {
 }
 
 /// (placement, castling field): positions whose clocks are varied over 98 / 99 / 100 and 65534 / 65535
+/// R-WALK: deterministic long lines from real start positions. From start (w, b) the line picks, at
+/// ply p, the legal move with index (mult * p + w + 3 * b) mod #moves in the reference model's
+/// sorted move list (and passes with a null move every `null_every`-th ply when not in check). Every
+/// position on the line is a root, so every root is provably reachable (when the line has no null
+/// move) and carries 10-40 plies of incremental history. Nothing is random: the schedule is fixed.
+pub fn walk_roots(starts: &[(u32, u32)], plies: usize, mult: usize, null_every: usize, root_every: usize, sink: &Sink) -> Vec<(RootDesc, Board)> {
+    let per_start: Vec<Vec<(RootDesc, Board)>> = starts
+        .par_iter()
+        .map(|&(w, b)| {
+            let mut out = Vec::new();
+            let mut board = match RootDesc::Dfrc(w, b).board() {
+                Ok(bd) => bd,
+                Err(e) => {
+                    sink.start_failed("double Chess960 start position cannot be constructed", json!({"kind": "start", "root": RootDesc::Dfrc(w, b).json()}), e);
+                    return out;
+                }
+            };
+            let mut moves: Vec<String> = Vec::new();
+            for p in 0..plies {
+                let pos = alpha(&board);
+                let legal = pos.legal_moves();
+                if legal.is_empty() {
+                    break;
+                }
+                let act = if null_every > 0 && p % null_every == null_every - 1 && !pos.in_check(pos.stm) {
+                    Act::Null
+                } else {
+                    Act::Move(legal[(mult * p + w as usize + 3 * b as usize) % legal.len()])
+                };
+                board = match apply(&board, act) {
+                    Ok(bd) => bd,
+                    Err(_) => break,
+                };
+                moves.push(act.text());
+                if (p + 1) % root_every == 0 {
+                    out.push((RootDesc::Line(w, b, moves.clone()), board.clone()));
+                }
+            }
+            out
+        })
+        .collect();
+    per_start.into_iter().flatten().collect()
+}
+
 pub const CLOCK_BASES: &[(&str, &str)] = &[
     ("r3k2r/p1ppqpb1/bn2pnp1/3PN3/1p2P3/2N2Q1p/PPPBBPPP/R3K2R", "KQkq"),
     ("4k3/7p/8/8/8/8/4P3/4K2R", "K"),
